@@ -341,9 +341,9 @@ func c20LogGen(g *hx.Gen) {
 	c20LogCase(g, nil, false, allReqs())
 	c20LogCase(g, []string{c20Dir("/")}, false, nil)
 	// 3. seeded random blocks, random requests, some issued concurrently
-	N := 250
+	N := 1200
 	if g.Thorough() {
-		N = 5000
+		N = 25000
 	}
 	for it := 0; it < N; it++ {
 		var dirs []string
